@@ -30,7 +30,9 @@ Inductive step :=
 | SIvDrop                               (* the interval goes out of scope *)
 | SReset (polled : bool) (d1 d2 : N)    (* pinned sleep(d1) [polled once]; reset(now + d2); await *)
 | SDropSleep (d : N)                    (* Box::pin(sleep(d)) polled once, then dropped *)
-| SLog.
+| SLog
+| SHandOver (ch d : N)                  (* Box::pin(sleep(d)) polled once, then sent on channel ch of the module *)
+| SRecvAwait (ch : N).                  (* receive a boxed Sleep from channel ch (log), await it (log) *)
 
 Inductive vstate := VSleep (s : sleep) | VFlip (polled : bool).
 
@@ -39,7 +41,23 @@ Inductive aw :=
 | AwSleep (s : sleep)
 | AwTimeout (v : vstate) (dl : sleep)
 | AwSelect (biased tie : bool) (a b : sleep)
-| AwTick.
+| AwTick
+| AwRecv (ch : N)                       (* waiting for a boxed Sleep on channel ch *)
+| AwHeld (tr : N) (s : sleep).          (* received at tr, awaiting the received Sleep *)
+
+(* the channels: (module, channel, sending task, the boxed Sleep), oldest first *)
+Definition mailbox := list (N * N * nat * sleep).
+
+Fixpoint mail_take (m ch : N) (mail : mailbox) : option (sleep * mailbox) :=
+  match mail with
+  | [] => None
+  | (m', ch', k, s) :: r =>
+    if (m' =? m) && (ch' =? ch) then Some (s, r)
+    else match mail_take m ch r with
+         | Some (s', r') => Some (s', (m', ch', k, s) :: r')
+         | None => None
+         end
+  end.
 
 Record task := { t_mod : N; t_start : N; t_steps : list step; t_cur : option aw;
                  t_iv : option interval; t_log : list N; t_fin : bool }.
@@ -59,8 +77,8 @@ Definition iv_drop (iv : option interval) (dr : driver) : driver :=
   match iv with Some i => sleep_drop (iv_delay i) dr | None => dr end.
 
 (* one poll of the awaited future: (log record if Ready, future, interval, driver,
-   did the task wake itself) *)
-Definition poll_aw (now : N) (a : aw) (iv : option interval) (dr : driver)
+   did the task wake itself); the channels are only touched by AwRecv, see [poll_aw] *)
+Definition poll_aw0 (now : N) (a : aw) (iv : option interval) (dr : driver)
   : option (list N) * aw * option interval * driver * bool :=
   match a with
   | AwSleep s =>
@@ -88,11 +106,28 @@ Definition poll_aw (now : N) (a : aw) (iv : option interval) (dr : driver)
       (match res with Some x => Some [now; x] | None => None end, AwTick, Some i', dr', false)
     | None => (Some [now; 0], AwTick, None, dr, false)
     end
+  | AwRecv ch => (None, AwRecv ch, iv, dr, false)
+  | AwHeld tr s =>
+    let '(r, s', dr') := sleep_poll now s dr in
+    ((if r then Some [tr; now] else None), AwHeld tr s', iv, dr', false)
+  end.
+
+(* ... with the channels of module m: a waiting receiver takes the oldest boxed Sleep of its
+   channel and goes on to await it in the same poll *)
+Definition poll_aw (now m : N) (a : aw) (iv : option interval) (dr : driver) (mail : mailbox)
+  : option (list N) * aw * option interval * driver * bool * mailbox :=
+  match a with
+  | AwRecv ch =>
+    match mail_take m ch mail with
+    | Some (s, mail') => (poll_aw0 now (AwHeld now s) iv dr, mail')
+    | None => (None, AwRecv ch, iv, dr, false, mail)
+    end
+  | _ => (poll_aw0 now a iv dr, mail)
   end.
 
 (* a step is begun: (future to await / None for a step without await, interval, driver,
    next Sleep id, log) *)
-Definition start_step (now : N) (s : step) (iv : option interval) (dr : driver) (nid : N) (lg : list N)
+Definition start_step0 (now : N) (s : step) (iv : option interval) (dr : driver) (nid : N) (lg : list N)
   : option aw * option interval * driver * N * list N :=
   match s with
   | SSleep d => (Some (AwSleep (sleep_new (now + d) nid)), iv, dr, nid + 1, lg)
@@ -114,50 +149,59 @@ Definition start_step (now : N) (s : step) (iv : option interval) (dr : driver) 
     let '(_, s1, dr1) := sleep_poll now (sleep_new (now + d) nid) dr in
     (None, iv, sleep_drop s1 dr1, nid + 1, lg ++ [now])
   | SLog => (None, iv, dr, nid, lg ++ [now])
+  | SHandOver _ _ => (None, iv, dr, nid, lg)          (* see [start_step] *)
+  | SRecvAwait ch => (Some (AwRecv ch), iv, dr, nid, lg)
+  end.
+
+(* ... for task k of module m, with the channels *)
+Definition start_step (now m : N) (k : nat) (s : step) (iv : option interval) (dr : driver) (nid : N)
+                      (lg : list N) (mail : mailbox)
+  : option aw * option interval * driver * N * list N * mailbox :=
+  match s with
+  | SHandOver ch d =>
+    let '(_, s1, dr1) := sleep_poll now (sleep_new (now + d) nid) dr in
+    (None, iv, dr1, nid + 1, lg ++ [now], mail ++ [(m, ch, k, s1)])
+  | _ => (start_step0 now s iv dr nid lg, mail)
   end.
 
 (* the task is polled: it runs until it blocks or ends *)
-Fixpoint run_steps (now : N) (steps : list step) (cur : option aw) (iv : option interval)
-                   (dr : driver) (nid : N) (lg : list N)
-  : list step * option aw * option interval * driver * N * list N * bool :=
+Fixpoint run_steps (now m : N) (k : nat) (steps : list step) (cur : option aw) (iv : option interval)
+                   (dr : driver) (nid : N) (lg : list N) (mail : mailbox)
+  : list step * option aw * option interval * driver * N * list N * bool * mailbox :=
   match steps with
-  | [] => ([], None, None, iv_drop iv dr, nid, lg, false)
+  | [] => ([], None, None, iv_drop iv dr, nid, lg, false, mail)
   | s :: rest =>
-    let '(a, iv1, dr1, nid1, lg1) :=
+    let '(a, iv1, dr1, nid1, lg1, mail1) :=
       match cur with
-      | Some a => (Some a, iv, dr, nid, lg)
-      | None => start_step now s iv dr nid lg
+      | Some a => (Some a, iv, dr, nid, lg, mail)
+      | None => start_step now m k s iv dr nid lg mail
       end in
     match a with
-    | None => run_steps now rest None iv1 dr1 nid1 lg1
+    | None => run_steps now m k rest None iv1 dr1 nid1 lg1 mail1
     | Some a =>
-      let '(res, a', iv2, dr2, sw) := poll_aw now a iv1 dr1 in
+      let '(res, a', iv2, dr2, sw, mail2) := poll_aw now m a iv1 dr1 mail1 in
       match res with
-      | Some r => run_steps now rest None iv2 dr2 nid1 (lg1 ++ r)
-      | None => (s :: rest, Some a', iv2, dr2, nid1, lg1, sw)
+      | Some r => run_steps now m k rest None iv2 dr2 nid1 (lg1 ++ r) mail2
+      | None => (s :: rest, Some a', iv2, dr2, nid1, lg1, sw, mail2)
       end
     end
   end.
 
 (* ---- the world ---- *)
-(* [w_owner]: Sleep ids lo <= id < hi were created (and are polled) by task k; the waker
-   stored with a timer entry is that task *)
+(* [w_owner]: the waker stored with each timer entry (coq/Timer/Futures.v [wakers]) *)
 Record world := { w_fes : sp; w_now : N; w_d0 : driver; w_d1 : driver;
-                  w_tasks : list task; w_nid : N; w_owner : list (N * N * nat) }.
+                  w_tasks : list task; w_nid : N; w_owner : wakers; w_mail : mailbox }.
 
 Definition drv_of (w : world) (m : N) : driver := if m =? 0 then w_d0 w else w_d1 w.
 
 Definition set_drv (w : world) (m : N) (dr : driver) : world :=
   if m =? 0 then {| w_fes := w_fes w; w_now := w_now w; w_d0 := dr; w_d1 := w_d1 w;
-                    w_tasks := w_tasks w; w_nid := w_nid w; w_owner := w_owner w |}
+                    w_tasks := w_tasks w; w_nid := w_nid w; w_owner := w_owner w; w_mail := w_mail w |}
   else {| w_fes := w_fes w; w_now := w_now w; w_d0 := w_d0 w; w_d1 := dr;
-          w_tasks := w_tasks w; w_nid := w_nid w; w_owner := w_owner w |}.
+          w_tasks := w_tasks w; w_nid := w_nid w; w_owner := w_owner w; w_mail := w_mail w |}.
 
-Fixpoint owner_of (own : list (N * N * nat)) (id : N) : list nat :=
-  match own with
-  | [] => []
-  | (lo, hi, k) :: r => if (lo <=? id) && (id <? hi) then [k] else owner_of r id
-  end.
+Definition owner_of (own : wakers) (id : N) : list nat :=
+  match waker_of own id with Some k => [k] | None => [] end.
 
 Fixpoint set_nth {A} (i : nat) (x : A) (l : list A) : list A :=
   match l, i with
@@ -166,30 +210,75 @@ Fixpoint set_nth {A} (i : nat) (x : A) (l : list A) : list A :=
   | y :: r, S i' => y :: set_nth i' x r
   end.
 
-(* tokio polls task k: returns whether it woke itself *)
-Definition poll_task (now m : N) (k : nat) (w : world) : world * bool :=
+(* the Sleeps a blocked task holds; each of them was polled in the poll that blocked it *)
+Definition held_sleeps (a : option aw) (iv : option interval) : list sleep :=
+  match a with
+  | Some (AwSleep s) => [s]
+  | Some (AwTimeout (VSleep s) dl) => [s; dl]
+  | Some (AwTimeout (VFlip _) dl) => [dl]
+  | Some (AwSelect _ _ a b) => [a; b]
+  | Some AwTick => match iv with Some i => [iv_delay i] | None => [] end
+  | Some (AwHeld _ s) => [s]
+  | _ => []
+  end.
+
+Fixpoint sent_by (k : nat) (mail : mailbox) : list sleep :=
+  match mail with
+  | [] => []
+  | (_, _, k', s) :: r => if Nat.eqb k k' then s :: sent_by k r else sent_by k r
+  end.
+
+(* Sleep::poll's treatment of the stored waker, for every Sleep task k polled (and still
+   holds, or has sent away) in this poll; [before]: the entries registered before the poll *)
+Definition note_polls (wfix : bool) (k : nat) (before : list N) (ss : list sleep) (tab : wakers) : wakers :=
+  fold_left (fun tab s => note_poll wfix k (existsb (N.eqb (sid s)) before) s tab) ss tab.
+
+(* tokio polls task k: returns whether it woke itself.  [wfix]: see Futures.sleep_poll_waker *)
+Definition poll_task (wfix : bool) (now m : N) (k : nat) (w : world) : world * bool :=
   match nth_error (w_tasks w) k with
   | None => (w, false)
   | Some tk =>
     if t_fin tk then (w, false) else
-    let '(steps, cur, iv, dr, nid, lg, sw) :=
-      run_steps now (t_steps tk) (t_cur tk) (t_iv tk) (drv_of w m) (w_nid w) (t_log tk) in
+    let before := flat_map snd (pending (drv_of w m)) in
+    let '(steps, cur, iv, dr, nid, lg, sw, mail) :=
+      run_steps now m k (t_steps tk) (t_cur tk) (t_iv tk) (drv_of w m) (w_nid w) (t_log tk) (w_mail w) in
     let tk' := {| t_mod := t_mod tk; t_start := t_start tk; t_steps := steps; t_cur := cur; t_iv := iv;
                   t_log := lg; t_fin := match steps with [] => true | _ => false end |} in
     let w1 := set_drv w m dr in
     ({| w_fes := w_fes w1; w_now := w_now w1; w_d0 := w_d0 w1; w_d1 := w_d1 w1;
         w_tasks := set_nth k tk' (w_tasks w1); w_nid := nid;
-        w_owner := (w_nid w, nid, k) :: w_owner w1 |}, sw)
+        w_owner := note_polls wfix k before (held_sleeps cur iv ++ sent_by k mail) (w_owner w1);
+        w_mail := mail |}, sw)
   end.
 
-(* run queue of the module's executor: FIFO; a task that wakes itself goes to the back *)
-Fixpoint run_queue (fuel : nat) (now m : N) (q : list nat) (w : world) : world :=
+(* receivers of module m that are blocked on a channel that holds a boxed Sleep: the send woke them *)
+Fixpoint ready_receivers (m : N) (mail : mailbox) (i : nat) (ts : list task) : list nat :=
+  match ts with
+  | [] => []
+  | tk :: r =>
+    match t_cur tk with
+    | Some (AwRecv ch) =>
+      if (t_mod tk =? m) && (match mail_take m ch mail with Some _ => true | None => false end)
+      then i :: ready_receivers m mail (S i) r else ready_receivers m mail (S i) r
+    | _ => ready_receivers m mail (S i) r
+    end
+  end.
+
+Definition enqueue (q : list nat) (ks : list nat) : list nat :=
+  q ++ filter (fun k => negb (existsb (Nat.eqb k) q)) ks.
+
+(* run queue of the module's executor: FIFO; receivers woken by a send join the back, then
+   the polled task itself if it woke itself *)
+Fixpoint run_queue (wfix : bool) (fuel : nat) (now m : N) (q : list nat) (w : world) : world :=
   match fuel with
   | O => w
   | S f =>
     match q with
     | [] => w
-    | k :: r => let '(w', sw) := poll_task now m k w in run_queue f now m (if sw then r ++ [k] else r) w'
+    | k :: r =>
+      let '(w', sw) := poll_task wfix now m k w in
+      let r1 := enqueue r (ready_receivers m (w_mail w') 0 (w_tasks w')) in
+      run_queue wfix f now m (if sw then enqueue r1 [k] else r1) w'
     end
   end.
 
@@ -203,27 +292,27 @@ Fixpoint dedup_acc (seen l : list nat) : list nat :=
 Definition dedup (l : list nat) : list nat := dedup_acc [] l.
 
 Definition queue_fuel (w : world) (q : list nat) : nat :=
-  length q + fold_right (fun tk n => (length (t_steps tk) + n)%nat) 1%nat (w_tasks w).
+  (length q + (1 + length (w_tasks w)) * fold_right (fun tk n => (length (t_steps tk) + n)%nat) 1%nat (w_tasks w))%nat.
 
 (* one event of module m at time t: activate (wake the due slots' tasks), the callback
    spawns [spawn], the executor runs until every task is blocked, deactivate (schedule
    the next wake-up if it is earlier than the one already scheduled).
    [fire]: the event is the AsyncWakeupEvent stamped t. *)
-Definition module_event (t m : N) (spawn : list nat) (fire : bool) (w : world) : world :=
+Definition module_event (wfix : bool) (t m : N) (spawn : list nat) (fire : bool) (w : world) : world :=
   let dr := if fire then sched_fire t (drv_of w m) else drv_of w m in
   let '(woken, dr1) := activate t dr in
   let q := dedup (flat_map (owner_of (w_owner w)) (flat_map snd woken) ++ spawn) in
   let w1 := set_drv w m dr1 in
-  let w2 := run_queue (queue_fuel w1 q) t m q w1 in
+  let w2 := run_queue wfix (queue_fuel w1 q) t m q w1 in
   let '(dr3, wk) := deactivate true (drv_of w2 m) in
   let w3 := set_drv w2 m dr3 in
   {| w_fes := match wk with Some x => fst (fst (sp_add (w_fes w3) x m)) | None => w_fes w3 end;
      w_now := t; w_d0 := w_d0 w3; w_d1 := w_d1 w3; w_tasks := w_tasks w3; w_nid := w_nid w3;
-     w_owner := w_owner w3 |}.
+     w_owner := w_owner w3; w_mail := w_mail w3 |}.
 
 Definition set_fes (w : world) (f : sp) : world :=
   {| w_fes := f; w_now := w_now w; w_d0 := w_d0 w; w_d1 := w_d1 w; w_tasks := w_tasks w;
-     w_nid := w_nid w; w_owner := w_owner w |}.
+     w_nid := w_nid w; w_owner := w_owner w; w_mail := w_mail w |}.
 
 (* task indices of module m that are spawned by at_sim_start *)
 Fixpoint start_tasks (m : N) (i : nat) (ts : list task) : list nat :=
@@ -243,23 +332,23 @@ Fixpoint inject (i : nat) (ts : list task) (f : sp) : sp :=
 
 Definition init_world (ts : list task) : world :=
   {| w_fes := inject 0 ts sp_new; w_now := 0; w_d0 := new_driver; w_d1 := new_driver;
-     w_tasks := ts; w_nid := 0; w_owner := [] |}.
+     w_tasks := ts; w_nid := 0; w_owner := []; w_mail := [] |}.
 
 (* SimLifecycle::at_sim_start: one stage; modules in creation order *)
-Definition sim_start (w : world) : world :=
-  let w0 := module_event 0 0 (start_tasks 0 0 (w_tasks w)) false w in
-  module_event 0 1 (start_tasks 1 0 (w_tasks w0)) false w0.
+Definition sim_start (wfix : bool) (w : world) : world :=
+  let w0 := module_event wfix 0 0 (start_tasks 0 0 (w_tasks w)) false w in
+  module_event wfix 0 1 (start_tasks 1 0 (w_tasks w0)) false w0.
 
 (* Runtime::run main loop: fetch the next event, dispatch it *)
-Definition loop_step (w : world) : world + world :=
+Definition loop_step (wfix : bool) (w : world) : world + world :=
   match sp_fetch (w_fes w) with
   | (f, OFetched pay t) =>
     let w1 := set_fes w f in
-    if pay <? 2 then inl (module_event t pay [] true w1)
+    if pay <? 2 then inl (module_event wfix t pay [] true w1)
     else
       let k := N.to_nat (pay - 2) in
       match nth_error (w_tasks w1) k with
-      | Some tk => inl (module_event t (t_mod tk) [k] false w1)
+      | Some tk => inl (module_event wfix t (t_mod tk) [k] false w1)
       | None => inl w1
       end
   | (_, _) => inr w
@@ -270,8 +359,8 @@ Definition loop_step (w : world) : world + world :=
 Definition fuel (ts : list task) : positive :=
   N.succ_pos (16 * N.of_nat (fold_right (fun tk n => (length (t_steps tk) + 1 + n)%nat) 0%nat ts) + 64).
 
-Definition run_tasks (ts : list task) : world * bool :=
-  match iter_until (fuel ts) loop_step (sim_start (init_world ts)) with
+Definition run_tasks (wfix : bool) (ts : list task) : world * bool :=
+  match iter_until (fuel ts) (loop_step wfix) (sim_start wfix (init_world ts)) with
   | inr w => (w, true)
   | inl w => (w, false)
   end.
@@ -280,10 +369,12 @@ Definition run_tasks (ts : list task) : world * bool :=
 (* script := nm  ntasks  task*            modules = 1 + nm mod 2
    task   := len [ mod start step* ]      (length-prefixed)   module = mod mod modules;
                                           start = 0: spawned by at_sim_start, else by a message at [start]
-   step   := 1 d | 2 t | 3 d k x | 4 f a b | 5 p beh k b1..bk | 6 f d1 d2 | 7 d | 8
+   step   := 1 d | 2 t | 3 d k x | 4 f a b | 5 p beh k b1..bk | 6 f d1 d2 | 7 d | 8 | 9 ch d | 10 ch
      3: timeout(d, if k even then sleep(x) else flip)       4: f odd = `biased;`
      5: interval(max 1 p), behaviour beh mod 3 (0 Burst 1 Delay 2 Skip), k ticks, after tick i
-        sleep(b_i) if b_i > 0                               6: f odd = polled once before the reset *)
+        sleep(b_i) if b_i > 0                               6: f odd = polled once before the reset
+     9: Box::pin(sleep(d)) polled once and sent on channel ch of the task's module
+     10: receive a boxed Sleep from channel ch of the task's module, then await it *)
 Definition beh_of (b : N) : behaviour :=
   if b mod 3 =? 0 then Burst else if b mod 3 =? 1 then Delay else Skip.
 
@@ -305,6 +396,8 @@ Definition dec_step (l : list N) : option (list step * list N) :=
   | 6 :: f :: d1 :: d2 :: r => Some ([SReset (N.odd f) d1 d2], r)
   | 7 :: d :: r => Some ([SDropSleep d], r)
   | 8 :: r => Some ([SLog], r)
+  | 9 :: ch :: d :: r => Some ([SHandOver ch d], r)
+  | 10 :: ch :: r => Some ([SRecvAwait ch], r)
   | _ => None
   end.
 
@@ -331,11 +424,19 @@ Definition decode (l : list N) : list task :=
   end.
 
 (* output := (len log.. fin)*  ok  end_time  [8 if out of fuel]
-   log records: sleep/sleep_until/reset/drop/log -> now;  timeout -> now ok;
-   select -> now branch (2 = unbiased tie);  tick -> now tick_instant *)
-Definition enc_task (tk : task) : list N :=
-  N.of_nat (length (t_log tk)) :: t_log tk ++ [b2n (t_fin tk)].
+   log records: sleep/sleep_until/reset/drop/log/hand-over -> now;  timeout -> now ok;
+   select -> now branch (2 = unbiased tie);  tick -> now tick_instant;
+   receive+await -> instant of the receive, instant the received Sleep completed
+   (a task still awaiting a received Sleep has logged the receive) *)
+Definition full_log (tk : task) : list N :=
+  t_log tk ++ match t_cur tk with Some (AwHeld tr _) => [tr] | _ => [] end.
 
-Definition run (input : list N) : list N :=
-  let '(w, ok) := run_tasks (decode input) in
+Definition enc_task (tk : task) : list N :=
+  N.of_nat (length (full_log tk)) :: full_log tk ++ [b2n (t_fin tk)].
+
+Definition run_gen (wfix : bool) (input : list N) : list N :=
+  let '(w, ok) := run_tasks wfix (decode input) in
   flat_map enc_task (w_tasks w) ++ [b2n (forallb t_fin (w_tasks w)); w_now w] ++ (if ok then [] else [8]).
+
+(* the code as it is now: a registered Sleep follows the task that polls it *)
+Definition run (input : list N) : list N := run_gen true input.
